@@ -455,6 +455,52 @@ func streamRListen(c *ctx) {
 		}
 		c.w.Emit(fmt.Sprintf("rlisten port=%d cycles=3 timeout=%d", port, timeout.Milliseconds()), strings.Join(res, " "), "rlisten", fmt.Sprintf("timeout/%v", timeout))
 	}
+	// the listener is told to stop while its error callback is still busy with a malformed datagram, and that callback
+	// answers "do not go on" (returns false), for two datagrams in a row: Listen still returns
+	{
+		port := freePort()
+		u := uhppote.NewUHPPOTE(types.BindAddrFrom(netip.MustParseAddr("127.0.0.1"), 0), types.BroadcastAddr{},
+			types.ListenAddrFrom(netip.MustParseAddr("127.0.0.1"), uint16(port)), T, nil, false)
+		entered := make(chan struct{}, 8)
+		connected := make(chan struct{}, 1)
+		l := &cbListener{
+			onConnected: func() { connected <- struct{}{} },
+			onEvent:     func(*types.Status) {},
+			onError: func(error) {
+				entered <- struct{}{}
+				time.Sleep(300 * time.Millisecond)
+			},
+			stop: true,
+		}
+		q := make(chan os.Signal, 1)
+		done := make(chan error, 1)
+		go func() { done <- u.Listen(l, q) }()
+		select {
+		case <-connected:
+		case <-time.After(time.Second):
+		}
+		out := "no-error-callback"
+		if s, err := net.Dial("udp4", fmt.Sprintf("127.0.0.1:%d", port)); err == nil {
+			s.Write([]byte{0x17, 0x20, 0x00})
+			s.Write([]byte{0x17, 0x20, 0x01})
+			s.Close()
+			select {
+			case <-entered:
+				q <- syscall.SIGINT
+				select {
+				case err := <-done:
+					out = "returned"
+					if err != nil {
+						out = "returned-error"
+					}
+				case <-time.After(5 * time.Second):
+					out = "hung"
+				}
+			case <-time.After(2 * time.Second):
+			}
+		}
+		c.w.Emit("rlisten-stop-during-onerror", out, "rlisten/stop-during-callback")
+	}
 	c.w.Notes = append(c.w.Notes, "rlisten stream: the real UDP listener on a loopback port, 3 start / stop cycles with immediate re-bind; per cycle 3..8 datagrams from two senders (valid, v6.62, truncated, valid event followed by 1 or 64 more bytes); events must arrive once each in order (in the second cycle while the callback is still busy with the first one), one error per malformed datagram, connected once, Listen returns nil; every second client with the debug flag on")
 	_ = cases.Hex
 }
